@@ -98,6 +98,7 @@ def interp (t : CqlTy) : GoVal → Option CqlVal
         | .map isNil kvs => if isNil then some .null else (interpPairs kt vt kvs).map CqlVal.map
         | _ => none)
     | .tuple ts => (match g with
+        | .nil => some .null
         | .ifaces vs => if vs.length = ts.length then (interpFields ts vs).map CqlVal.tuple else none
         | .struct vs => if vs.length = ts.length then (interpFields ts vs).map CqlVal.tuple else none
         | .slice _ vs => if vs.length = ts.length then (interpFields ts vs).map CqlVal.tuple else none
@@ -151,19 +152,13 @@ def excludedScalar (t : CqlTy) (g : GoVal) : Bool :=
      | some col => !k.signed && decide (v ≥ (2:Int)^(8*col.bytes-1))          -- D9: unsigned wraps into the sign bit
      | none => (match t with
         | .date => k == .int64 && !named &&
-            (decide (v < 0 ∧ v % 86400000 ≠ 0)                                -- D5: truncation toward zero
-             || !(ValueSpec.fitsU 4 (v / 86400000 + 2147483648)))             -- out-of-range day wraps
-        | .duration => k == .int64 && named                                   -- D8: 8 raw bytes
+            !(ValueSpec.fitsU 4 (v / 86400000 + 2147483648))                  -- KF-C12-5: out-of-range day wraps
         | _ => false))
-  | .big v => (match t with
-      | .bigint | .counter => (specVarint v).length ≠ 8                        -- D8: minimal length, not 8 bytes
-      | _ => false)
   | .time sec nsec =>
     timeIsZero sec nsec                                                        -- zero time ↦ empty value (gocql convention)
     || !(ValueSpec.fitsS 8 (sec * 1000)) || !(ValueSpec.fitsS 8 (exactMillis sec nsec))   -- int64 overflow of Unix()*1e3 + ms
     || (match t with
-        | .date => decide (exactMillis sec nsec < 0 ∧ exactMillis sec nsec % 86400000 ≠ 0)
-                   || !(ValueSpec.fitsU 4 (sec / 86400 + 2147483648))
+        | .date => !(ValueSpec.fitsU 4 (sec / 86400 + 2147483648))             -- KF-C12-5
         | _ => false)
   | .f32 named x => named && decide (quiet32 x ≠ x)                            -- Go float32→float64→float32 quiets a signalling NaN
   | .ip b => b.length ≠ 4 && b.length ≠ 16                                     -- net.IP of another length ↦ null
@@ -171,7 +166,7 @@ def excludedScalar (t : CqlTy) (g : GoVal) : Bool :=
                     && (s.length ≥ 0)                                          -- standard-library parsers: not modelled
   | _ => false
 
-/-- does `Marshal` return a nil slice for this value (so that a tuple writes length 0 for it)? -/
+/-- does `Marshal` return a nil slice for this value (so that a collection under protocol ≤ 2 writes length 0 for it)? -/
 def marshalsNil (g : GoVal) : Bool :=
   match g with
   | .nilptr | .unset => true
@@ -203,10 +198,10 @@ def excluded (p : Nat) (t : CqlTy) : GoVal → Bool
         | .unset => true
         | _ => false)
     | .tuple ts => (match g with
-        | .ifaces vs => excludedFields p true ts vs
-        | .struct vs => excludedFields p false ts vs
-        | .slice _ vs => excludedFields p false ts vs
-        | .array vs => excludedFields p false ts vs
+        | .ifaces vs => excludedFields p ts vs
+        | .struct vs => excludedFields p ts vs
+        | .slice _ vs => excludedFields p ts vs
+        | .array vs => excludedFields p ts vs
         | _ => false)
     | .udt names ts => (match g with
         | .udtmap _ fnames vs => excludedNamed p names ts fnames vs
@@ -225,14 +220,9 @@ def excludedPairs (p : Nat) (kt vt : CqlTy) : List (GoVal × GoVal) → Bool
       || (p ≤ 2 && (k == .nil || marshalsNil (derefAll k) || v == .nil || marshalsNil (derefAll v)))
       || excludedPairs p kt vt r
 
-/-- tuple fields: D8 — a value that marshals to nil is written as length 0 unless it is the untyped nil of a
-    `[]interface{}` (`viaIface`) resp. a nil pointer field of a struct / slice / array -/
-def excludedFields (p : Nat) (viaIface : Bool) : List CqlTy → List GoVal → Bool
-  | t :: ts, v :: vs =>
-    excluded p t v
-    || (if viaIface then (v != .nil && marshalsNil (derefAll v)) || (v == .nil && false)
-        else (v == .nil) || (v != .nilptr && marshalsNil (derefAll v)))
-    || excludedFields p viaIface ts vs
+/-- tuple fields: only what is excluded inside a field (a null field is written as −1 by every source shape) -/
+def excludedFields (p : Nat) : List CqlTy → List GoVal → Bool
+  | t :: ts, v :: vs => excluded p t v || excludedFields p ts vs
   | _, _ => false
 
 def excludedNamed (p : Nat) (names : List String) (ts : List CqlTy) : List String → List GoVal → Bool
@@ -288,6 +278,7 @@ def documented (t : CqlTy) : GoVal → Bool
         | .map _ kvs => documentedPairs kt vt kvs
         | _ => false)
     | .tuple ts => (match g with
+        | .nil => true
         | .ifaces vs => vs.length == ts.length && documentedFields ts vs
         | .struct vs => vs.length == ts.length && documentedFields ts vs
         | .slice _ vs => vs.length == ts.length && documentedFields ts vs
